@@ -286,7 +286,8 @@ def sig(o):
 CLASS = {"E": "EnergyResult", "K": "KBandResult", "D": "ResultDict", "V": "VoidResult"}
 METHOD = dict(Add="__add__", Sub="__sub__", AddInPlace="add", Mul="__mul__", Div="__truediv__", AddVoidRight="__add__",
               AddVoidLeft="__add__", SubVoidRight="__sub__", SubVoidLeft="__sub__", Transform="transform", SaveNpz="save",
-              SaveVoid="save", LoadNpz="from_npz", AddZeroLeft="__radd__", AddNoneRight="__add__", MulArray="mul_array")
+              SaveVoid="save", LoadNpz="from_npz", AddZeroLeft="__radd__", AddNoneRight="__add__", MulArray="mul_array",
+              AddInPlaceVoid="add")
 
 
 def where_raised(ex):
@@ -319,8 +320,11 @@ def apply_op(ev, objs, files, step, scratch):
     if op == "AddInPlace":
         a.add(b)
         return None
+    if op == "AddInPlaceVoid":
+        a.add(VoidResult() if step % 2 == 0 else None)        # the void result and None alternate
+        return None
     if op == "Mul":
-        return a * (s if step % 2 == 0 else float(s))        # int and float scalars alternate
+        return a * scalar_variant(s, step + 2 * i + abs(s))     # every type meets every operand within two steps
     if op == "Div":
         return a / (s if step % 2 == 0 else float(s))
     if op == "AddVoidRight":
@@ -351,6 +355,11 @@ def apply_op(ev, objs, files, step, scratch):
     if op == "LoadNpz":
         return EnergyResult.from_npz(files[i - 1])
     raise MachineryError(f"unknown operation {op}")
+
+
+def scalar_variant(s, step):
+    """the integer scalar s of the specification as int, float, np.int64, np.float32, np.float64 (by the step number)"""
+    return (int(s), float(s), np.int64(s), np.float32(s), np.float64(s))[step % 5]
 
 
 def read_npz(path):
